@@ -497,7 +497,7 @@ def run(ctx, prop):
         rng = ctx.rng
         ops += [gen_fast(rng) for _ in range(ctx.scale(450, 6000))]
         ops += [gen_connect(rng) for _ in range(ctx.scale(120, 3000))]
-        ops += [gen_slow(rng) for _ in range(ctx.scale(8, 240))]
+        ops += [gen_slow(rng) for _ in range(ctx.scale(8, 150))]
         if ctx.thorough:
             for acts in enum_templates():
                 for sch in enum_schedules(acts, 5 if len(acts) == 3 else 4):
